@@ -453,6 +453,88 @@ pub fn run(tier: &str) -> i32 {
         }
     }
 
+    // (B4c) constructs whose answer depends on a type written in the program (type filter, match type
+    //       arm, if-set), for every ordered pair (T1, T2) of a palette in which many types share
+    //       whatever a coarse summary keeps (member count of a union, field names of a struct type,
+    //       arity of a tuple): the construct for T1, then the one for T2, one after the other on one
+    //       thread of this process - and nothing else running meanwhile, the family is sequential.
+    //       The expected answer is computed per element by the reference membership judgement, so a
+    //       memory of an earlier type anywhere in the process shows, whichever program left it
+    {
+        use crate::ty::belongs;
+        let st = |f: &[(&str, Ty)]| Ty::strukt(f);
+        let types: Vec<Ty> = vec![
+            Ty::Int,
+            Ty::arr(Ty::Int),
+            Ty::union([Ty::Int, Ty::Float]),
+            Ty::union([Ty::Str, Ty::Bool]),
+            Ty::union([Ty::Int, Ty::Str]),
+            Ty::union([Ty::Float, Ty::Bool]),
+            Ty::union([Ty::arr(Ty::Int), Ty::arr(Ty::Float)]),
+            Ty::union([Ty::arr(Ty::Int), Ty::Str]),
+            Ty::arr(Ty::union([Ty::Int, Ty::Float])),
+            Ty::arr(Ty::union([Ty::Str, Ty::Bool])),
+            st(&[("a", Ty::Int)]),
+            st(&[("a", Ty::Str)]),
+            st(&[("a", Ty::union([Ty::Int, Ty::Str]))]),
+            st(&[("a", Ty::union([Ty::Float, Ty::Bool]))]),
+            Ty::Tup(vec![Ty::Int, Ty::Int]),
+            Ty::Tup(vec![Ty::Str, Ty::Int]),
+            Ty::Tup(vec![Ty::union([Ty::Int, Ty::Str]), Ty::Int]),
+            Ty::union([Ty::Int, Ty::Float, Ty::Str]),
+            Ty::union([Ty::Bool, Ty::arr(Ty::Int), Ty::Tup(vec![Ty::Int, Ty::Int])]),
+            Ty::mutc(Ty::union([Ty::Int, Ty::Float])),
+            Ty::mutc(Ty::union([Ty::Str, Ty::Bool])),
+        ];
+        const ELEMS: &str = "[1, 2.5, \"a\", true, [1], [2.5], [\"s\"], (1, 2), (\"s\", 2), struct{ a := 1 }, struct{ a := \"s\" }, struct{ a := 2.5 }, mut int|float 1, mut string|bool \"s\"]";
+        let elems: Vec<Variable> = match Code::parse(&Interpreter::with_stdlib(), ELEMS).ok().and_then(|c| c.exec().ok()) {
+            Some(Variable::Array(a)) => a.iter().cloned().collect(),
+            _ => Vec::new(),
+        };
+        let forms: [(&str, fn(&str) -> String); 3] = [
+            ("type-filter", |t| format!("{ELEMS}~ ? {t} $]")),
+            ("match-arm", |t| format!("{ELEMS}~ ? (v: any) -> bool {{ return match v {{ q: {t} => true, => false, }} }} $]")),
+            ("if-set", |t| format!("{ELEMS}~ ? (v: any) -> bool {{ return if q: {t} = v {{ true }} else {{ false }} }} $]")),
+        ];
+        let mut fam = Acc::default();
+        if elems.len() != 14 {
+            fam.violations.push(Violation { sig: "C05|type-dependent-after-other-type|element-list-not-built".into(), detail: json!({"kind": "program", "stdlib": true, "text": ELEMS}) });
+        }
+        let mut seen_outcomes: BTreeSet<String> = BTreeSet::new();
+        core::on_big_stack(|| {
+            for (fname, form) in forms.iter() {
+                for t1 in types.iter() {
+                    for t2 in types.iter() {
+                        let w = form(&t1.print());
+                        let p = form(&t2.print());
+                        let _ = program_outcome(&w);
+                        let got = program_outcome(&p);
+                        fam.runs += 1;
+                        fam.base_cases += 1;
+                        let want: Vec<String> = elems.iter().filter(|e| belongs(e, t2)).map(crate::val::canon).collect();
+                        // the elements themselves, from one more evaluation of P (the outcome text carries type tags)
+                        let again = guard(|| Code::parse(&Interpreter::with_stdlib(), &p).ok().and_then(|c| c.exec().ok())).ok().flatten();
+                        let again_elems: Option<Vec<String>> = match again {
+                            Some(Variable::Array(a)) => Some(a.iter().map(crate::val::canon).collect()),
+                            _ => None,
+                        };
+                        seen_outcomes.insert(format!("{}", want.len()));
+                        if again_elems.as_ref() != Some(&want) {
+                            fam.violations.push(Violation {
+                                sig: format!("C05|type-dependent-after-other-type|{fname}|type={}|after={}", t2.print().replace('|', "/"), t1.print().replace('|', "/")),
+                                detail: json!({"kind": "program", "stdlib": true, "text": p, "run_before_on_the_same_thread": w, "expected_elements": want, "observed_elements": again_elems, "observed": got}),
+                            });
+                        }
+                    }
+                }
+            }
+        });
+        if seen_outcomes.len() < 3 {
+            fam.violations.push(Violation { sig: "C05|type-dependent-after-other-type|vacuous".into(), detail: json!({"kind": "program", "stdlib": true, "text": ELEMS}) });
+        }
+        merge(&mut acc, fam);
+    }
+
     // (B4b) prior work that ends early: a program that *fails part-way* through a consumer (after
     //       some elements were pulled), or completes, then a probe through every consumer on the
     //       same thread - every (work source x work consumer) x (probe source x probe consumer)
